@@ -276,8 +276,8 @@ def cli_cases(draw):
     else:
         spec = f"{b * 3},{k}{draw(st.sampled_from(['B', 'b', 'N']))}"
     # value columns given on the command line: several --field options in any order, each with its own aggregate
-    fields = draw(st.sampled_from([None, None, ["count"], ["x:agg=max", "count"], ["count", "x:agg=min"], ["x:agg=max"],
-                                   ["x:agg=max", "count:agg=sum"], ["count:agg=max", "x"]]))
+    fields = draw(st.sampled_from([["x:agg=max", "count"], None, ["x:agg=max", "count:agg=sum"], ["count:agg=max", "x"], None, ["count", "x:agg=min"],
+                                   ["count"], ["x:agg=max"]]))
     # COOL_PATH is a COARSER cooler (m x the base bin size) and the fine base comes in through --base-uri; progressions
     # given with an explicit start then begin below COOL_PATH's own resolution
     base_m = draw(st.sampled_from([None, None, None, 2, 5])) if kind in ("list", "kN", "kB", "4dn", "mixed", "n", "b") else None
@@ -292,7 +292,9 @@ def cli_cases(draw):
         base_m, fields = None, None
         extra_bases = draw(st.sampled_from([[7], [3, 7], [11], [5]]))
     return {"part": "cli", "b": b, "nbins": nb, "kind": kind, "spec": spec, "exact": exact and kind != "4dn", "fields": fields, "base_m": base_m, "extra_bases": extra_bases,
-            "px": draw(st.lists(st.tuples(st.integers(0, 499), st.integers(0, 499), st.integers(1, 9)), min_size=1, max_size=12,
+            # (most coordinates close together, so that coarse pixels really aggregate several fine ones)
+            "px": draw(st.lists(st.tuples(st.one_of(st.integers(0, 23), st.integers(0, 23), st.integers(0, 499)),
+                                          st.one_of(st.integers(0, 23), st.integers(0, 23), st.integers(0, 499)), st.integers(1, 9)), min_size=5, max_size=14,
                                 unique_by=lambda t: (min(t[0], t[1]), max(t[0], t[1]))))}
 
 
@@ -398,7 +400,8 @@ def check_cli(case, ctx: Ctx):
         check(got == [f"/resolutions/{r}" for r in want],
               lambda: f"zoomify -r {case['spec']} on base {b} (genome {genome}, maxres {maxres}) produced {got}, documented progression is {want}")
         check(is_multires_file(out), "not recognised as multires")
-        for r in sorted(set(want[:: max(1, len(want) // 3)]) | {b * m_x for m_x in case.get("extra_bases") or []}):
+        # (with --field specs the coarsest level is always among the levels compared: that is where several fine pixels meet)
+        for r in sorted(set(want[:: max(1, len(want) // 3)]) | {b * m_x for m_x in case.get("extra_bases") or []} | ({want[-1]} if fields else set())):
             clr = cooler.Cooler(f"{out}::resolutions/{r}")
             k = r // b
             pr = _proj(rows, cols) if fields else rows
